@@ -97,6 +97,8 @@ InDom(dom, x, y) ==
     \* divertor legs only: the few, strongly curved cells of a coarse core make finite displacements
     \* a poor estimate of the tangent vectors
     [] dom = "legsAwayX" -> Kind(T, Order(T)[RegY(y)]) \in {"wall.X", "X.wall"} /\ ~XRow(y)
+    [] dom = "coreRegions" -> Kind(T, Order(T)[RegY(y)]) \in {"X.X", "closed"}
+    [] dom = "legRegions" -> Kind(T, Order(T)[RegY(y)]) \in {"wall.X", "X.wall", "wall.wall"}
     [] OTHER -> FALSE
 SameSign(a, b) == (a > 0) = (b > 0) /\ (a < 0) = (b < 0)
 PairOK(p) ==
@@ -107,16 +109,24 @@ PairOK(p) ==
       IN CASE p.kind = "near" -> Near(a, b, p.bound)
            [] p.kind = "signratio" -> a # NANV /\ b # NANV /\
                  (Abs(b) <= 1000 \/ (SameSign(a, b) /\ 2 * Abs(a) >= Abs(b) /\ Abs(a) <= 2 * Abs(b)))
+           [] p.kind = "samesign" -> a # NANV /\ b # NANV /\ a # 0 /\ SameSign(a, b)
            [] p.kind = "signratio12" -> a # NANV /\ b # NANV /\
                  (20 * Abs(b) <= Obs.g12scale[x + 1][y + 1] \/ (SameSign(a, b) /\ 2 * Abs(a) >= Abs(b) /\ Abs(a) <= 2 * Abs(b)))
            [] OTHER -> FALSE
 PairClauses == \A k \in 1..Len(Obs.pairs) : ClauseAt(Obs.pairs[k].clause, PairOK(Obs.pairs[k]), Obs.pairs[k].loc)
 
+\* C03: a single sign of Bp for the whole grid; scalars
+C03Extra ==
+  /\ ClauseAt("OneBpSign", \A loc \in {"centre", "xlow", "ylow"} : \A x \in XS : \A y \in YS :
+         Obs.bpsign_all[loc][x + 1][y + 1] = Obs.bpsign_all["centre"][1][1] /\ Obs.bpsign_all["centre"][1][1] # 0, "all")
+  /\ \A k \in DOMAIN Obs.scalars : ClauseAt("Scalar_" \o k, Near(Obs.scalars[k][1], Obs.scalars[k][2], 100), "scalar")
+
 --------------------------------------------------------------------------
 Observe ==
   /\ stage = "file"
   /\ CASE Obs.prop = "C01" -> C01Clauses
-       [] Obs.prop \in {"C02", "C03"} -> PairClauses
+       [] Obs.prop = "C02" -> PairClauses
+       [] Obs.prop = "C03" -> PairClauses /\ C03Extra
        [] OTHER -> TRUE
   /\ stage' = "observed"
   /\ UNCHANGED <<cfg, conn, rects, ygroups, ints, tid>>
